@@ -46,6 +46,7 @@ RULE = ('cases = storage (SDevice config, flow) or thermal (TDevice config, flow
         'temperatures negative, zero and positive; rate clip none/one/both; cbounds none or a wide pair (shifts the constraint offset). '
         'Compared in Coq (tol 1e-9 rel+abs): utils.soc, utils.base_soc, utils.sustainment_matrix, SDevice.charge_at, the state read back '
         'from the 2n SoC constraints and from the final reserve constraint of SDevice.constraints, TDevice.t_base, TDevice.r2t. '
+        'Two thirds of the devices are evaluated (cost, marginal cost at three flows) before their state is read. '
         'Non-trivial: the flow has a non-zero slot; distinct by hash of (config, flow).')
 EXPLANATION = ('Theorems (Props/C09.v) show for every length that the model state (closed form through the sustainment matrix, as the code '
                'computes it) obeys the documented recurrences, that the constraints bound that same state, and the thermal recurrence for '
@@ -110,6 +111,10 @@ def gen_cases(rng, tier):
     # the FORM in which the flow is handed over: float ndarray, Python list of floats, whole-number flows as an integer ndarray or as
     # a list of Python ints (iterative callers pass float arrays; scenario files and users pass anything numpy accepts)
     c['rform'] = ['nd', 'nd', 'list', 'int', 'nd', 'intlist', 'nd', 'int'][(i // 2) % 8]
+    # two thirds of the devices are USED before their state is read: cost and marginal cost at the flow itself, at its reversed
+    # negation and at a flow without idle slots (what a solve does first).  Evaluating a device must not disturb the state it reports
+    # afterwards (seeded C09_11: the marginal cost scaled the memoised sustainment matrix in place - invisible at zero flow and at efficiency 1)
+    c['used'] = (i // 2) % 3 != 0
     if c['rform'] in ('int', 'intlist'):
       c['r'] = [F(0) if v == 0 else F(int(v) if int(v) != 0 else (1 if v > 0 else -1)) for v in c['r']]
     out.append(c)
@@ -159,10 +164,21 @@ def build(c):
   return dk.TDevice(*args)
 
 
+def use(d, r):
+  for x in (r, -r[::-1], np.where(r == 0, 0.5, r)):
+    for f in (lambda: d.cost(x.copy(), 0), lambda: d.deriv(x.copy(), 0)):
+      try:
+        f()
+      except Exception:
+        pass
+
+
 def observe(c):
   from device_kit import utils
   d = build(c)
   r = np.array(fl(c['r']))
+  if c.get('used'):
+    use(d, r)
   rf = flow_obj(c)                 # what charge_at / r2t / soc receive; the constraint functions get what a solver passes (float ndarray)
   if c['kind'] == 'T' and not isinstance(rf, np.ndarray):
     rf = np.array(rf)              # TDevice.r2t calls r.reshape: ndarray only (integer dtype kept)
@@ -204,7 +220,7 @@ def nontrivial(c, o):
 
 def classify(c, o):
   r = c['r']
-  ks = ['kind:' + c['kind'], 'flowform:' + c.get('rform', 'nd'), 'n:%d' % c['n'], 'sustainment:%s' % c['sustainment'], 'efficiency:%s' % c['efficiency']]
+  ks = ['kind:' + c['kind'], 'history:' + ('used-before-read' if c.get('used') else 'fresh'), 'flowform:' + c.get('rform', 'nd'), 'n:%d' % c['n'], 'sustainment:%s' % c['sustainment'], 'efficiency:%s' % c['efficiency']]
   if any(v > 0 for v in r) and any(v < 0 for v in r):
     ks.append('flow:mixed-sign')
   if any(v == 0 for v in r):
